@@ -8,6 +8,7 @@ package evaluator
 
 //@ global ErrPanic != nil && ErrIndexValue != nil && ErrBounds != nil && ErrSlice != nil && ErrMapKey != nil && ErrVarNotSet != nil && ErrBadArguments != nil && ErrBadRepetition != nil && ErrAnyConversion != nil && ErrRangevalue != nil && ErrStopped != nil && ErrTest != nil && ErrInternal != nil && ErrType != nil && ErrOperation != nil && ErrUnknownNode != nil && ErrRangeType != nil && ErrAssignmentTarget != nil
 //@ global wraps(ErrIndexValue, ErrPanic) && wraps(ErrBounds, ErrPanic) && wraps(ErrSlice, ErrPanic) && wraps(ErrMapKey, ErrPanic)
+//@ global RandSource != nil
 //@ global wraps(ErrVarNotSet, ErrPanic) && wraps(ErrBadArguments, ErrPanic) && wraps(ErrBadRepetition, ErrPanic) && wraps(ErrAnyConversion, ErrPanic) && wraps(ErrRangevalue, ErrPanic)
 //@ global wraps(ErrType, ErrInternal) && wraps(ErrOperation, ErrInternal) && wraps(ErrUnknownNode, ErrInternal) && wraps(ErrRangeType, ErrInternal) && wraps(ErrAssignmentTarget, ErrInternal)
 //@ global !wraps(ErrIndexValue, ErrBounds) && !wraps(ErrBounds, ErrIndexValue) && !wraps(ErrSlice, ErrBounds) && !wraps(ErrSlice, ErrIndexValue)
